@@ -231,6 +231,10 @@ TaskRun(t) ==
             [] T.pc \in {"v1", "v3"} /\ w \in {"lost", "tmo30"} ->
                  \* tmo30: _send_lines closes the transport (write_eof + close) and raises a disconnection
                  Fail(IF w = "tmo30" THEN CloseSock(S, T.sock) ELSE S, t, "generic")
+            [] T.pc = "sub" /\ w = "r_exc" ->
+                 \* owner.connection_made raised something else (e.g. KeyError on a malformed multi-status row):
+                 \* the attempt failed although pair-verify had succeeded - transport dropped, back-off
+                 Fail(S, t, "generic")
             [] T.pc = "sub" /\ w \in {"lost", "tmo30"} ->
                  \* subscribe() swallows the disconnection, connection_made returns; if the transport is
                  \* already gone the attempt counts as failed (see fix in /repo), else the pending loss
@@ -275,10 +279,11 @@ AccRecv(s) ==
     /\ socks' = [socks EXCEPT ![s].c2a = Tail(@), ![s].accPend = Append(@, Head(socks[s].c2a))]
     /\ UNCHANGED <<now, cur, closing, closedF, secureF, shutdownF, lock, ref, tasks, hosts, descr, failed,
                    nxUsed, callers, attempts, userClosed, subsOk, authEnded>>
-ReplyKinds == {"r_ok", "r_wrongid", "r_auth", "r_generic"}
+ReplyKinds == {"r_ok", "r_wrongid", "r_auth", "r_generic", "r_exc"}
 AccReply(s, kind) ==
     /\ s \in Socks /\ socks[s].accPend # << >> /\ socks[s].pclose = "no" /\ kind \in ReplyKinds
     /\ kind = "r_wrongid" => Head(socks[s].accPend) = "m1"      \* only M2 carries the accessory identifier
+    /\ kind = "r_exc" => Head(socks[s].accPend) = "sub"         \* a reply that makes connection_made raise a non-library exception
     /\ socks' = [socks EXCEPT ![s].a2c = Append(@, kind), ![s].accPend = Tail(@)]
     /\ UNCHANGED <<now, cur, closing, closedF, secureF, shutdownF, lock, ref, tasks, hosts, descr, failed,
                    nxUsed, callers, attempts, userClosed, subsOk, authEnded>>
